@@ -22,8 +22,11 @@ LEVEL_NOTE = ("The theorems are about the mathematical QP (Spec/Qp.lean) and the
               "constraints scale_l*x_l + gap <= scale_r*x_r (Variable::position, Constraint::slack, Block::cost), which is the "
               "property's wording also for scale != 1. Cases where the implementation flags a constraint unsatisfiable or throws "
               "are skipped (counted), as the property states. The static Solver is only run on acyclic inequality-only problems "
-              "(it has no equality handling). SPECFAIL messages carry a diagnostic cause= (premature stop confirmed by repeating "
-              "solve() on the live solver / multipliers within the solver's own -1e-4 tolerance / other); the verdict itself "
+              "(it has no equality handling). SPECFAIL messages carry a diagnostic cause=: stopped-after-cost-neutral-pass-with-splittable-constraint "
+              "(the known loop-criterion defect: solve() returned exactly the state of its documented loop re-executed by the "
+              "harness through the public satisfy(), that loop's last pass moved nothing, a multiplier < -1e-4 remains and repeating "
+              "solve() reaches the optimum) / solve-differs-from-documented-satisfy-loop / multipliers within the solver's own "
+              "-1e-4 tolerance / other; the verdict itself "
               "depends only on the certified optimum and the stated tolerance. On the random classes the static solver runs "
               "under a SIGABRT guard (a failed COLA_ASSERT is recorded as `abort` and reported as SPECFAIL solver-aborted when "
               "the oracle certified the problem feasible) with leak checking off for that variant; everywhere else an abort is a "
@@ -31,7 +34,8 @@ LEVEL_NOTE = ("The theorems are about the mathematical QP (Spec/Qp.lean) and the
 TECHNIQUE = "Lean 4 theorems (KKT sufficiency, uniqueness, checker soundness) + certified exact oracle on real solver outputs"
 DESIGN_REF = "DESIGN.md section 6 C02"
 RULE = ("feasible-by-construction problems (hidden witness placement): exhaustive n<=3 (7 edge states x desired {0,1,2}^n x 2 weight "
-        "patterns; thorough adds n=4), random classes dag/chain/tree/eq/cyc/scaled/degen/smallw (n<=12 quick, <=40 thorough) and "
+        "patterns; thorough adds n=4), random classes dag/chain/tree/eq/cyc/scaled/degen/smallw (n<=12 quick, <=40 thorough), fan (re-solve histories: chain/tree of "
+        "6..12 variables pressed into one block, then fanned out on the live libvpsc and libavoid solvers; plus one fixed such case) and "
         "big (n 60..300, thorough); each case runs 5-7 solver variants incl. re-solve and permuted order. Non-trivial = at least one "
         "constraint has a non-zero multiplier at the certified optimum.")
 TRUSTED_BASE = ["Lean 4.33 kernel", "axioms: propext, Classical.choice, Quot.sound", "Lean compiler (checkKkt runs compiled)",
